@@ -32,6 +32,12 @@ RULE = ("Well-shaped triangulated surfaces (min angle >= 8 deg): closed bases (t
         "objects are re-inspected and re-flagged after the later ones. Sub-check 'large': jittered panels with 2600-3400 free "
         "vertices (or 2700-3300 free faces), n_smooth = 0, harmonic extension recomputed with a sparse direct solve and a "
         "1-norm condition estimate (size regimes above any internal threshold). "
+        "Round 4: every field / sequence case also draws the library-wide switch display_duplicate_attribute_warning (create_attribute "
+        "then returns an existing attribute), prior calls of the public attribute functions on the mesh, a translation of 300 or "
+        "3e5 element sizes, faces given as numpy rows of int64/int32/int16/uint8, unsorted neighbourhoods (face fields), and a "
+        "prelude of calls the documentation says are refused (they must raise and leave the switches alone). Sub-check "
+        "'custom_connection': caller-built connections (Flat* on an embedded planar mesh turned by an arbitrary angle; "
+        "SurfaceConnectionFaces with its default border-only features under a field that uses creases). "
         "non-trivial = the mesh has >=1 free element and (order != 4 or features on) [large: > 2500 free elements; laplacian sub-check: an interior edge and "
         "order != 4; sequence: >=2 distinct (elements, order) steps and an interior edge]; distinct = distinct realised cases.")
 ASSUMPTIONS = [
@@ -52,6 +58,14 @@ ASSUMPTIONS = [
     "integer-typed coordinate rows are used only for magnitudes below 1e5 (beyond, int64 products in numpy overflow silently)",
     "sequence: a step on the eigen path (closed surface, no constraint) is not compared with a fresh mesh (degenerate lowest "
     "eigenspaces make the vector picked depend on round-off); vertex-field flag_singularities is only a history step",
+    "custom_connection: with a caller-supplied connection, tangency of the face-field constraint is asserted for order 4 only "
+    "until scratch/fixes/C18-6 is in (flag ASSERT_CUSTOM_TANGENCY_ANY_ORDER / env C18_ASSERT_CUSTOM_TANGENCY=1); vertex fields "
+    "only with the Flat connection (a caller-built SurfaceConnectionVertices carries its own normals)",
+    "sequence under display_duplicate_attribute_warning=True: all face fields of a history share one `features` value until "
+    "scratch/fixes/C18-7 is in (flag FIXED_ATTRIBUTE_IS_LOCAL / env C18_FIXED_ATTRIBUTE_LOCAL=1)",
+    "not drawn: complete_edges_from_faces=False (a surface without edge container has no feature edges to constrain), "
+    "sort_neighborhoods=False for vertex fields (the vertex connection walks sorted rings), anisotropic scaling and float32 "
+    "coordinates (change the geometry / the accuracy regime of the tangency and export tolerances)",
     "'planar' in the laplacian sub-check means embedded in the plane z=0 with one orientation (edge flips can fold a sheet over)",
 ]
 
@@ -1470,13 +1484,13 @@ def self_test():
 
 
 SUBCHECKS = [
-    SubCheck("field", field_case(), fn_field, quick=2000, thorough=8000),
-    SubCheck("sequence", sequence_case(), fn_sequence, quick=320, thorough=1500),
-    SubCheck("custom_connection", custom_case(), fn_custom, quick=320, thorough=1000),
+    SubCheck("field", field_case(), fn_field, quick=1600, thorough=8000),
+    SubCheck("sequence", sequence_case(), fn_sequence, quick=280, thorough=1500),
+    SubCheck("custom_connection", custom_case(), fn_custom, quick=240, thorough=1000),
     SubCheck("large", large_case(), fn_large, quick=16, thorough=12, watchdog=(240, 900)),
-    SubCheck("renumber_vertices", renumber_case("vertices"), fn_renumber, quick=400, thorough=1500),
-    SubCheck("renumber_faces", renumber_case("faces"), fn_renumber, quick=400, thorough=1500),
-    SubCheck("laplacian", laplacian_case(), fn_laplacian, quick=480, thorough=1500),
+    SubCheck("renumber_vertices", renumber_case("vertices"), fn_renumber, quick=320, thorough=1500),
+    SubCheck("renumber_faces", renumber_case("faces"), fn_renumber, quick=320, thorough=1500),
+    SubCheck("laplacian", laplacian_case(), fn_laplacian, quick=400, thorough=1500),
 ]
 
 
